@@ -80,15 +80,15 @@ mod de {
             Some(ValueKeyword::Data) => {
                 //FIXME: remove this + base64 dep when/if we merge
                 //<https://github.com/ebarnard/rust-plist/pull/122>
-                let b64_str = map.next_value::<&str>()?;
+                let b64_str = map.next_value::<String>()?;
                 base64_standard
                     .decode(b64_str)
                     .map(Value::Data)
                     .map_err(|e| A::Error::custom(format!("Invalid XML data: '{e}'")))
             }
             Some(ValueKeyword::Date) => {
-                let date_str = map.next_value::<&str>()?;
-                plist::Date::from_xml_format(date_str).map_err(A::Error::custom).map(Value::Date)
+                let date_str = map.next_value::<String>()?;
+                plist::Date::from_xml_format(&date_str).map_err(A::Error::custom).map(Value::Date)
             }
             Some(ValueKeyword::Real) => map.next_value::<f64>().map(Value::Real),
             Some(ValueKeyword::Integer) => {
